@@ -13,7 +13,7 @@ structure St where
   cfg : Cfg
   stream : List Nat
 
-def St.new : St := ⟨RState.init (List.replicate maxBuf 0), ⟨true, 65, 0⟩, []⟩
+def St.new : St := ⟨RState.init (List.replicate maxBuf 0), ⟨true, 65, 0, false⟩, []⟩
 
 def faultStr : Fault → String
   | .encIndex => "fault:encIndex"
@@ -43,6 +43,12 @@ def step (s : St) (w : List String) : St × String :=
       | .ok bytes => ({ s with stream := s.stream ++ bytes }, hexOfBytes bytes)
       | .error f => (s, faultStr f)
     | _, _, _, _, _, _ => (s, "bad-op")
+  | ["rnew", src, fill, mode] =>
+    match nat? src, nat? fill with
+    | some src, some fill =>
+      ({ r := RState.init (List.replicate maxBuf fill),
+         cfg := { s.cfg with defaultSource := src, stampLocal := mode == "local" }, stream := [] }, "ok")
+    | _, _ => (s, "bad-op")
   | ["rnew", src, fill] =>
     match nat? src, nat? fill with
     | some src, some fill =>
